@@ -7,11 +7,12 @@ CONSTANTS
   NPool = 2
   MaxLines = 3
   NAnswers = 5
-  Attempts = {0, 2, 3}
+  Attempts = {0, 2}
   NDefaults = 0
   Inter = {TRUE}
   Multis = {FALSE}
   Muts = {0, 1, 2, 3}
+  RouteIds = {1}
   Rounds = 2
 INVARIANT TypeOK
 INVARIANT H_sane
